@@ -33,12 +33,21 @@ pub enum Op {
     PushFrame,
     /// clone_data of an existing value (leaves its scratch cells in the data block: later compactions see them)
     Clone(usize),
+    /// a scalar of the remaining kinds, cycling with the step number: float, char, byte, unit, true, type, expression, external
+    Scalar,
+    /// range / slice / partial of an existing value and the most recent one
+    Range(usize),
+    Slice(usize),
+    Partial(usize),
 }
 
 /// operations enabled with `n` existing values (operands are value ordinals)
 fn enabled(n: usize) -> Vec<Op> {
-    let mut v = vec![Op::Number, Op::Text, Op::Symbol, Op::Bytes];
+    let mut v = vec![Op::Number, Op::Text, Op::Symbol, Op::Bytes, Op::Scalar];
     for i in 0..n {
+        v.push(Op::Range(i));
+        v.push(Op::Slice(i));
+        v.push(Op::Partial(i));
         v.push(Op::KeyedPair(i));
         v.push(Op::List1(i));
         v.push(Op::PushRegister(i));
@@ -130,6 +139,28 @@ fn apply(st: &mut St, op: Op) -> Result<(), String> {
             None
         }
         Op::Clone(i) => Some(st.d.clone_data(val(st, i)).map_err(e)?),
+        Op::Scalar => Some(match st.steps % 8 {
+            0 => st.d.add_number(garnish_lang_simple_data::SimpleNumber::Float(k as f64 + 0.5)).map_err(e)?,
+            1 => st.d.add_char('é').map_err(e)?,
+            2 => st.d.add_byte(200).map_err(e)?,
+            3 => st.d.add_unit().map_err(e)?,
+            4 => st.d.add_true().map_err(e)?,
+            5 => st.d.add_type(garnish_lang_traits::GarnishDataType::List).map_err(e)?,
+            6 => st.d.add_expression(3).map_err(e)?,
+            _ => st.d.add_external(9).map_err(e)?,
+        }),
+        Op::Range(i) => {
+            let (a, c) = (val(st, i), *st.values.last().unwrap());
+            Some(st.d.add_range(a, c).map_err(e)?)
+        }
+        Op::Slice(i) => {
+            let (a, c) = (val(st, i), *st.values.last().unwrap());
+            Some(st.d.add_slice(a, c).map_err(e)?)
+        }
+        Op::Partial(i) => {
+            let (a, c) = (val(st, i), *st.values.last().unwrap());
+            Some(st.d.add_partial(a, c).map_err(e)?)
+        }
         Op::PushFrame => {
             let ret = 1000 + st.steps;
             st.d.push_frame(ret).map_err(e)?;
@@ -557,6 +588,14 @@ fn parse_op(s: &str) -> Option<Op> {
         Op::PushFrame
     } else if s.starts_with("Clone") {
         Op::Clone(g(0))
+    } else if s.starts_with("Scalar") {
+        Op::Scalar
+    } else if s.starts_with("Range") {
+        Op::Range(g(0))
+    } else if s.starts_with("Slice") {
+        Op::Slice(g(0))
+    } else if s.starts_with("Partial") {
+        Op::Partial(g(0))
     } else {
         return None;
     })
